@@ -320,8 +320,17 @@ def check_parser_tokens(ctx) -> None:
                 ctx.ok("C08.table", fn, c, f"operator spelling `{pat}` is matched as a whole word only")
             else:
                 ctx.bad("C08.table", fn, c, f"the operator pattern `{pat}` is not anchored by word boundaries on both sides: it also matches inside identifiers")
+        if c.func.attr in ("sub", "subn") and norm(c.func.value) == "re" and c.args and isinstance(c.args[0], ast.Constant) and isinstance(c.args[0].value, str) and any(w in c.args[0].value for w in ("AND", "OR")):
+            pat = c.args[0].value
+            n += 1
+            items = list(sre.parse(pat))
+            bounded = len(items) >= 3 and items[0] == (sc.AT, sc.AT_BOUNDARY) and items[-1] == (sc.AT, sc.AT_BOUNDARY)
+            if bounded:
+                ctx.ok("C08.table", fn, c, f"operator spelling `{pat}` is matched as a whole word only")
+            else:
+                ctx.bad("C08.table", fn, c, f"the operator pattern `{pat}` is not anchored by word boundaries on both sides: it also matches inside identifiers")
     if n == 0:
-        raise AnalysisError("GPR.from_string: the upper-case operator handling was not found")
+        ctx.note("C08.table: no familiar spelling of the upper-case operator handling in GPR.from_string; decided by the evaluated text -> rule clause (identifiers that contain AND / OR)")
 
 
 def check_equivalence(ctx) -> None:
